@@ -270,7 +270,7 @@ def phase_life(ctx):
     keeps = os.path.join(d, "blob_keeps_sha.cfg")
     tlc.write_cfg(keeps, spec="Spec", constants={"NF": 1, "Vals": "{0, 1, 2}", "IsBlob": "TRUE", "SetterMarksDirty": "TRUE",
                                                 "ChunkedResetsSha": "FALSE"})
-    for name, cfg, budget in (("generic", "ObjFile_mc.cfg", ctx.pick(800, 100000)), ("blob", "ObjFile_blob.cfg", ctx.pick(300, 100000)),
+    for name, cfg, budget in (("generic", "ObjFile_mc.cfg", ctx.pick(600, 100000)), ("blob", "ObjFile_blob.cfg", ctx.pick(300, 100000)),
                               ("blob_keeps_sha", keeps, ctx.pick(300, 100000))):
         dot = os.path.join(d, name + ".dot")
         res = tlc.run("ObjFile.tla", cfg, workers=4, dump_dot=dot, timeout=600, coverage=not ctx.quick)
@@ -418,7 +418,7 @@ def phase_life_traces(ctx, traces):
 
 def phase_fuzz(ctx):
     d = ctx.tmpdir("fz")
-    n_py, n_rs = ctx.pick(6, 12), ctx.pick(1, 3)
+    n_py, n_rs = ctx.pick(4, 12), ctx.pick(1, 3)
     per = ctx.pick(600, 6000)
     jobs = [{"task": "fuzz", "mode": "py", "shard": i, "count": per, "traces": os.path.join(d, f"py{i}.ndjson")} for i in range(n_py)]
     jobs += [{"task": "fuzz", "mode": "rs", "shard": 100 + i, "count": per, "traces": os.path.join(d, f"rs{i}.ndjson")} for i in range(n_rs)]
